@@ -121,3 +121,100 @@ def run_c13(F, rep):
 
 def run_c14(F, rep):
     _report(F, rep, "C14.cast", lambda o: bool(C14_OWNERS.search(o)), "string / number built-ins", 10)
+    float_guard_boundaries(F, rep, "C14.cast")
+
+
+def float_guard_boundaries(F, rep, rule="C14.cast"):
+    """A float is turned into an integer with `as` only after a range guard (helper functions taking the float as a parameter).  `as` saturates
+    and maps NaN to 0, so the guard must let through exactly the values the target can hold: the helper is evaluated abstractly on the
+    boundary values of every integer target it casts to (NaN, +-inf, +-2^(n-1), their neighbours, 0) and the cast must be reached only with
+    a value v with  -2^(n-1) <= v < 2^(n-1)."""
+    import math
+    import struct
+    import absint
+    from absint import Interp, Flt, Opaque, Int, Tup, Variant
+
+    def nxt(x, up):
+        b = struct.unpack("<q", struct.pack("<d", x))[0]
+        b += 1 if (x > 0) == up else -1
+        return struct.unpack("<d", struct.pack("<q", b))[0]
+    BITS = {"i8": 8, "i16": 16, "i32": 32, "i64": 64, "i128": 128, "isize": 64, "u8": 8, "u16": 16, "u32": 32, "u64": 64, "u128": 128, "usize": 64}
+    helpers = []
+    for f in F.crates["bytecode"].fns:
+        casts = [(rv["to"], st.get("sp")) for bi, si, d, rv, st in f.assigns() if rv.get("cast") == "FloatToInt"]
+        fparams = [i for i in range(1, f.argc + 1) if f.locals[i].strip() in ("f64", "f32")]
+        if casts and fparams and f.kind != "Closure":
+            helpers.append((f, casts, fparams))
+    rep.floor(rule + " float-to-integer helpers", len(helpers), 1)
+
+    def m_unary(fn_):
+        def model(it, p, fid, fn, t, args):
+            v = args[0]
+            if isinstance(v, absint.Ptr):
+                v = it.deref(p, v)
+            if isinstance(v, Flt):
+                return fn_(v.v)
+            return NotImplemented
+        return model
+
+    def rng_new(it, p, fid, fn, t, args):
+        return Tup([args[0], args[1]])
+
+    def rng_contains(it, p, fid, fn, t, args):
+        r = args[0]
+        k = 0
+        while isinstance(r, absint.Ptr) and k < 4:
+            r = it.deref(p, r)
+            k += 1
+        x = args[1]
+        k = 0
+        while isinstance(x, absint.Ptr) and k < 4:
+            x = it.deref(p, x)
+            k += 1
+        if isinstance(r, Tup) and len(r.fields) >= 2 and all(isinstance(q, Flt) for q in r.fields[:2]) and isinstance(x, Flt):
+            return absint.mkbool(r.fields[0].v <= x.v <= r.fields[1].v)
+        if isinstance(r, Variant) and len(r.fields) >= 2 and all(isinstance(q, Flt) for q in r.fields[:2]) and isinstance(x, Flt):
+            return absint.mkbool(r.fields[0].v <= x.v <= r.fields[1].v)
+        return NotImplemented
+    models = dict(absint.DEFAULT_MODELS)
+    models.update({
+        "core::f64::<impl f64>::is_finite": m_unary(lambda v: absint.mkbool(math.isfinite(v))),
+        "core::f64::<impl f64>::is_nan": m_unary(lambda v: absint.mkbool(math.isnan(v))),
+        "core::f64::<impl f64>::is_infinite": m_unary(lambda v: absint.mkbool(math.isinf(v))),
+        "core::f64::<impl f64>::abs": m_unary(lambda v: Flt(abs(v))),
+        "core::f64::<impl f64>::trunc": m_unary(lambda v: Flt(float(math.trunc(v))) if math.isfinite(v) else Flt(v)),
+        "core::ops::range::RangeInclusive::new": rng_new,
+        "core::ops::range::RangeInclusive::contains": rng_contains,
+        "core::ops::range::Range::contains": lambda it, p, fid, fn, t, args: NotImplemented,
+    })
+    for f, casts, fparams in helpers:
+        bad, undec, n = [], [], 0
+        for to in sorted({c[0] for c in casts}):
+            bits = BITS.get(to)
+            if bits is None:
+                continue
+            signed = to.startswith("i")
+            lo = -(2.0 ** (bits - 1)) if signed else 0.0
+            hi = 2.0 ** (bits - 1) if signed else 2.0 ** bits          # first value that does NOT fit
+            vals = [float("nan"), float("inf"), float("-inf"), hi, nxt(hi, False), nxt(hi, True), lo, nxt(lo, True), nxt(lo, False), 0.0, -0.5, 1e300, -1e300]
+            for v in vals:
+                it = Interp(F, models=models, max_depth=5, max_paths=64)
+                args = [Flt(v) if i in fparams else Opaque("arg%d" % i) for i in range(1, f.argc + 1)]
+                try:
+                    outs = it.run(f, args)
+                except (ValueError, KeyError):
+                    outs = []
+                n += 1
+                reached = [e for o in outs for e in o.events if e[0] == "f2i" and e[2] == to]
+                fits = math.isfinite(v) and lo <= v < hi
+                unknown = it.exhausted or not outs or any(o.kind not in ("return", "panic") for o in outs) or any(
+                    ("assert-fails" in str(a)) for o in outs for a in o.assume if False)
+                # paths forked on something we could not evaluate: the guard was not read
+                forked = any(o.data_dep for o in outs if any(e[0] == "f2i" for e in o.events)) and len({bool([e for e in o.events if e[0] == "f2i"]) for o in outs}) > 1
+                if (unknown or forked) and not fits:
+                    undec.append("%r -> %s" % (v, to))
+                elif reached and not fits:
+                    bad.append("%r reaches `as %s` (%s)" % (v, to, "NaN becomes 0" if math.isnan(v) else "saturates to the type's limit"))
+        rep.ob(rule, "%s lets a float through to `as` only when the integer type can hold it (boundary values of each target)" % mir.short(f.path),
+               "violated" if bad else ("undecided" if undec else "ok"), "; ".join((bad or undec)[:4]) or "%d boundary evaluations" % n, f.span, fn=f.path,
+               key="%s|float-range|%s" % (rule, mir.short(f.path)))
